@@ -332,9 +332,35 @@ class Shim:
                 if S.from_trashcli():
                     r = S.lib(recname or name, [path] + [x for x in a],
                               lambda: orig(path, *a, **kw))
+                    if name in ('stat', 'lstat') and isinstance(r, os.stat_result) and isinstance(path, (str, bytes)):
+                        # the faked volumes are different devices for whoever asks (st_dev), as they are for rename (EXDEV) and ismount
+                        try:
+                            p = os.fsdecode(path)
+                            if name == 'stat':
+                                p = O['realpath'](p)
+                            v = S.vol_of(p)
+                            r = _StatOnVolume(r, 64000 + (sorted(S.mounts).index(v) + 1 if v in S.mounts else 0))
+                        except Exception:
+                            pass
                     return r
                 return orig(path, *a, **kw)
             return w
+
+        class _StatOnVolume(object):
+            def __init__(self, st, dev):
+                self._st, self.st_dev = st, dev
+
+            def __getattr__(self, n):
+                return getattr(self._st, n)
+
+            def __getitem__(self, i):
+                return self.st_dev if i == 2 else self._st[i]
+
+            def __iter__(self):
+                return iter(tuple(self._st[:2]) + (self.st_dev,) + tuple(self._st[3:]))
+
+            def __len__(self):
+                return len(self._st)
         os.stat = os_probe('stat')
         os.lstat = os_probe('lstat')
         os.access = os_probe('access')
@@ -610,7 +636,7 @@ def _child(root, scn, step, resfile, outf, errf):
     # every mount has a file-system type: physical ones (what psutil lists without all=True) and the network / fuse types
     # trash-cli accepts by name (fstab/mount_points_listing.py); the type is a function of the mount point, so runs replay
     import zlib
-    _TYPES = ['ext4', 'ext4', 'vfat', 'nfs4', 'fuse.gocryptfs', 'p9', 'btrfs', 'ext4']
+    _TYPES = ['ext4', 'ext4', 'btrfs', 'nfs4', 'fuse.gocryptfs', 'p9', 'vfat', 'ext4']
     _PHYSICAL = ('ext4', 'vfat', 'btrfs')
 
     def _fstype(mp):
